@@ -71,6 +71,9 @@ impl Storage {
         // FIXME: Replace with something like `exhaust`.
         self.snaps.drain(..).map(|s| self_free.push(s.snap)).count();
         self.ack_tick = None;
+        // The snapshot `delta_tick` names is gone as well, the next snapshot
+        // must be a full one.
+        self.delta_tick = None;
     }
     pub fn ack_tick(&self) -> Option<i32> {
         self.ack_tick
